@@ -111,15 +111,15 @@ Definition step (c : cfg) (l : label) (s : sys) : option sys :=
           let p' := probe_end c pb r p in
           let rest := filter (fun x => negb (N.eqb (pb_id (fst x)) id)) (s_probes s) in
           (* A3: an instance that is given up (boot timeout) without ever having been discovered runs no
-             crunch-run process *)
-          let giveup_unknown :=
-            match find_w id (p_workers p), find_w id (p_workers p') with
-            | Some w, Some w' => wstate_eqb (w_st w) WUnknown && negb (wstate_eqb (w_st w') WUnknown) &&
-                                 negb (wstate_eqb (w_st w') WIdle) && negb (wstate_eqb (w_st w') WRunning)
-            | _, _ => false
+             crunch-run process the pool does not know *)
+          let bad :=
+            match find_w id (p_workers p), find_w id (p_workers p'), find_vm id (s_vms s) with
+            | Some w, Some w', Some v =>
+                wstate_eqb (w_st w) WUnknown && wstate_eqb (w_st w') WShutdown &&
+                negb (forallb (fun u => memN u (wbook w')) (v_procs v))
+            | _, _, _ => false
             end in
-          if giveup_unknown && match find_vm id (s_vms s) with Some v => negb (forallb (fun u => memN u (match find_w id (p_workers p') with Some w' => wbook w' | None => [] end)) (v_procs v)) | None => false end
-          then None
+          if bad then None
           else Some (mksys (mkpe p' (pe_next (s_env s)) (pe_create (s_env s))) (s_vms s) rest (s_gates s))
       end
   | LProcExit id u => Some (mksys (s_env s) (set_procs id (remove_one u) (s_vms s)) (s_probes s) (s_gates s))
